@@ -96,6 +96,24 @@ CORPUS += [
 ]
 
 
+CORPUS += [
+    # seeded C22-e: an upload whose every byte is written but which its client never closed must leave no
+    # share behind when the connection is lost / disconnected() runs / the timeout fires
+    [["A", 0, [0, 1], 4, 0, 10 ** 9, 1], ["W", 0, 0, "01020304"], ["W", 1, 0, "0506"], ["K", 1], ["L", 0], ["R", 0, 0, 0, 4], ["S"], ["D"]],
+    [["A", 1, [0], 4, 0, 10 ** 9], ["W", 0, 0, "01020304"], ["Y", 0], ["L", 1], ["S"], ["A", 1, [0], 4, 1, 10 ** 9], ["D"]],
+    [["A", 2, [0], 4, 0, 10 ** 9], ["W", 0, 0, "01020304"], ["T", 1800], ["L", 2], ["S"], ["D"]],
+]
+
+
+CORPUS += [
+    # restart (C29 clause 4 seen from C22): uploads in progress are discarded with their reservations, completed
+    # shares stay, old handles are dead, the share numbers can be allocated again
+    [["A", 0, [0, 1, 2], 4, 0, 10 ** 9, 1], ["W", 0, 0, "01020304"], ["C", 0], ["W", 1, 0, "0506"], ["S"], ["Z"], ["S"], ["L", 0],
+     ["W", 1, 2, "07"], ["C", 2], ["X", 1], ["K", 1], ["A", 0, [0, 1, 2], 4, 1, 10 ** 9], ["W", 3, 0, "0a0b0c0d"], ["C", 3],
+     ["T", 1800], ["S"], ["L", 0], ["D"]],
+]
+
+
 def digest(prefix_state, op):
     return hash((prefix_state, repr(op)))
 
@@ -108,7 +126,7 @@ def run(ctx):
     else:
         cases = [("corpus", h, True) for h in CORPUS]
         for i in range(n_hist):
-            cases.append(("gen", U.gen_history(ctx.rng, ctx.rng.choice([10, 25, 40, 60]), foolscap=0.5, http_frac=0.5), False))
+            cases.append(("gen", U.gen_history(ctx.rng, ctx.rng.choice([10, 25, 40, 60]), foolscap=0.5, http_frac=0.5, restarts=True), False))
     lines, impl, recs = [], [], []
     for kind, ops, concrete in cases:
         conc, line, out, viol = U.run_history(ctx, "C22", ops, concrete=concrete, dirs=True)
